@@ -1,6 +1,6 @@
 /-
 C20 — nested creation: segments chain (`Chain`), objects other than the acting one keep their euid across a
-create() script (`Frame`), and `exec` (ops with nested create() scripts, any fuel) is good.
+create() script (`Keeps`), and `exec` (ops with nested create() scripts, any fuel) is good.
 -/
 import NV.C20.LemmasOps
 
@@ -9,12 +9,12 @@ namespace NV.C20
 /-- the oracle clauses do not look at `first`, and look at `res` only for export_uid -/
 theorem StepOK_congr {bb : Option Name} {P : List Obj} {w1 : World} {r r' : StepRec} (h : StepOK bb P w1 r)
     (ha : r'.actor = r.actor) (hop : r'.op = r.op) (hvs : r'.vs = r.vs) (hcs : r'.creations = r.creations)
-    (hsnap : r'.snap = r.snap) (hcrash : r'.crash = r.crash)
+    (hsnap : r'.snap = r.snap) (hcrash : r'.crash = r.crash) (hco : r'.co = r.co)
     (hres : r'.res = r.res ∨ ∀ t, r.op ≠ .exportUid t) : StepOK bb P w1 r' := by
-  obtain ⟨a, op, vs, cs, res, snap, crash, first⟩ := r
-  obtain ⟨a', op', vs', cs', res', snap', crash', first'⟩ := r'
-  simp only at ha hop hvs hcs hsnap hcrash hres
-  subst ha hop hvs hcs hsnap hcrash
+  obtain ⟨a, op, vs, cs, res, snap, crash, first, co, vsnap⟩ := r
+  obtain ⟨a', op', vs', cs', res', snap', crash', first', co', vsnap'⟩ := r'
+  simp only at ha hop hvs hcs hsnap hcrash hres hco
+  subst ha hop hvs hcs hsnap hcrash hco
   rcases hres with hres | hres
   · subst hres
     exact ⟨h.inv, h.snap, h.nocrash, h.known, h.euid, h.uid, h.creation, h.noeuid, h.exportc, h.asked⟩
@@ -26,6 +26,16 @@ theorem StepOK_congr {bb : Option Name} {P : List Obj} {w1 : World} {r r' : Step
     · cases op' with
       | exportUid t => exact absurd rfl (hres t)
       | _ => rfl
+
+/-- a segment in which the master's compile_object was asked on behalf of an actor that passed the euid test -/
+theorem StepOK_co {bb : Option Name} {P : List Obj} {w1 : World} {r : StepRec} (h : StepOK bb P w1 r)
+    {A : Obj} (hA : getO P r.actor = some A) (hguard : ¬ (r.actor ≠ masterOid ∧ A.euid = none))
+    (x : String × CoAns) : StepOK bb P w1 { r with co := some x } := by
+  obtain ⟨a, op, vs, cs, res, snap, crash, first, co, vsnap⟩ := r
+  refine ⟨h.inv, h.snap, h.nocrash, h.known, h.euid, h.uid, h.creation, ?_, h.exportc, h.asked⟩
+  simp only at hA hguard
+  simp only [noEuidClause, hA]
+  rw [if_neg hguard]
 
 /-! ### chains of segments -/
 
@@ -49,79 +59,52 @@ theorem Chain.single {bb : Option Name} {P : List Obj} {w1 : World} {r : StepRec
 theorem Chain.cons {bb : Option Name} {P Q : List Obj} {w1 : World} {r : StepRec} {rs : List StepRec}
     (h : StepOK bb P w1 r) (hc : Chain bb w1.objs rs Q) : Chain bb P (r :: rs) Q := ⟨w1, h, hc⟩
 
-/-! ### frame: who keeps its euid -/
+/-! ### nothing registered disappears inside a create() script -/
 
-/-- every object registered in `P` other than `o` is still registered in `Q`, with the same euid -/
-def Frame (o : Oid) (P Q : List Obj) : Prop :=
-  ∀ x X, x ≠ o → getO P x = some X → ∃ X', getO Q x = some X' ∧ X'.euid = X.euid
+/-- every object registered in `P` is still registered in `Q` -/
+def Keeps (P Q : List Obj) : Prop := ∀ x, getO P x ≠ none → getO Q x ≠ none
 
-theorem Frame.refl (o : Oid) (P : List Obj) : Frame o P P := fun _ X _ h => ⟨X, h, rfl⟩
+theorem Keeps.refl (P : List Obj) : Keeps P P := fun _ h => h
 
-theorem Frame.of_eq {o : Oid} {P Q : List Obj} (h : Q = P) : Frame o P Q := h ▸ Frame.refl o P
+theorem Keeps.of_eq {P Q : List Obj} (h : Q = P) : Keeps P Q := h ▸ Keeps.refl P
 
-theorem Frame.trans {o : Oid} {P Q R : List Obj} (h1 : Frame o P Q) (h2 : Frame o Q R) : Frame o P R := by
-  intro x X hx hX
-  obtain ⟨X1, h3, h4⟩ := h1 x X hx hX
-  obtain ⟨X2, h5, h6⟩ := h2 x X1 hx h3
-  exact ⟨X2, h5, h6.trans h4⟩
+theorem Keeps.trans {P Q R : List Obj} (h1 : Keeps P Q) (h2 : Keeps Q R) : Keeps P R := fun x h => h2 x (h1 x h)
 
-theorem Frame.setO_fresh {z : Oid} {P : List Obj} {o : Obj} (h : getO P o.oid = none) : Frame z P (setO P o) := by
-  intro x X _ hX
-  have hne : ¬ o.oid = x := by
-    intro e; rw [e] at h; rw [h] at hX; cases hX
-  exact ⟨X, by simp [getO_setO, hne, hX], rfl⟩
-
-theorem Frame.setO_self {P : List Obj} {o : Obj} : Frame o.oid P (setO P o) := by
-  intro x X hx hX
-  have hne : ¬ o.oid = x := fun e => hx e.symm
-  exact ⟨X, by simp [getO_setO, hne, hX], rfl⟩
-
-theorem Frame.setO_euid {z : Oid} {P : List Obj} {o T : Obj} (hT : getO P o.oid = some T) (he : o.euid = T.euid) :
-    Frame z P (setO P o) := by
-  intro x X _ hX
-  by_cases hne : o.oid = x
-  · refine ⟨o, by simp [getO_setO, hne], ?_⟩
-    rw [hne] at hT; rw [hT] at hX; cases hX; exact he
-  · exact ⟨X, by simp [getO_setO, hne, hX], rfl⟩
-
-/-- a create() script of a freshly registered object `o` leaves everything registered before untouched -/
-theorem Frame.through_fresh {z o : Oid} {P P1 Q : List Obj} (hfresh : getO P o = none) (h1 : Frame z P P1)
-    (h2 : Frame o P1 Q) : Frame z P Q := by
-  intro x X hx hX
-  have hxo : x ≠ o := by
-    intro e; rw [e] at hX; rw [hfresh] at hX; cases hX
-  obtain ⟨X1, h3, h4⟩ := h1 x X hx hX
-  obtain ⟨X2, h5, h6⟩ := h2 x X1 hxo h3
-  exact ⟨X2, h5, h6.trans h4⟩
+theorem Keeps.setO (P : List Obj) (o : Obj) : Keeps P (setO P o) := by
+  intro x hx
+  rw [getO_setO]
+  by_cases h : o.oid = x
+  · simp [h]
+  · simpa [h] using hx
 
 /-! ### good runners -/
 
 def GoodSub (bb : Option Name) (sub : Sub) : Prop :=
   ∀ w o key, Inv w →
-    Inv (sub w o key).1 ∧ Chain bb w.objs (sub w o key).2 (sub w o key).1.objs ∧ Frame o w.objs (sub w o key).1.objs
+    Inv (sub w o key).1 ∧ Chain bb w.objs (sub w o key).2 (sub w o key).1.objs ∧ Keeps w.objs (sub w o key).1.objs
 
 def GoodExec (bb : Option Name) (f : Bool → World → Oid → Op → World × List StepRec) : Prop :=
   ∀ nested w a op, Inv w →
     Inv (f nested w a op).1 ∧ Chain bb w.objs (f nested w a op).2 (f nested w a op).1.objs ∧
-      (nested = true → Frame a w.objs (f nested w a op).1.objs)
+      (nested = true → Keeps w.objs (f nested w a op).1.objs)
 
 theorem goodSub_skip (bb : Option Name) : GoodSub bb (fun w _ _ => (w, [])) := by
   intro w o _ hw
-  exact ⟨hw, rfl, Frame.refl o w.objs⟩
+  exact ⟨hw, rfl, Keeps.refl w.objs⟩
 
 theorem runScript_good {bb : Option Name} {f : Bool → World → Oid → Op → World × List StepRec} (hf : GoodExec bb f)
     (o : Oid) : ∀ (ops : List Op) (w : World), Inv w →
       Inv (runScript (f true) w o ops).1 ∧ Chain bb w.objs (runScript (f true) w o ops).2 (runScript (f true) w o ops).1.objs ∧
-        Frame o w.objs (runScript (f true) w o ops).1.objs := by
+        Keeps w.objs (runScript (f true) w o ops).1.objs := by
   intro ops
   induction ops with
-  | nil => intro w hw; exact ⟨hw, rfl, Frame.refl o w.objs⟩
+  | nil => intro w hw; exact ⟨hw, rfl, Keeps.refl w.objs⟩
   | cons op ops ih =>
     intro w hw
     simp only [runScript]
     obtain ⟨h1, h2, h3⟩ := hf true w o op hw
     obtain ⟨h4, h5, h6⟩ := ih (f true w o op).1 h1
-    exact ⟨h4, Chain.append h2 h5, Frame.trans (h3 rfl) h6⟩
+    exact ⟨h4, Chain.append h2 h5, Keeps.trans (h3 rfl) h6⟩
 
 theorem goodSub_script {bb : Option Name} {f : Bool → World → Oid → Op → World × List StepRec} (hf : GoodExec bb f)
     (script : String → List Op) : GoodSub bb (fun w o key => runScript (f true) w o (script key)) :=
